@@ -276,7 +276,7 @@ pub fn engine_of(prop: &str) -> Option<Box<dyn Engine>> {
         "C16" => Box::new(Multi {
             prop: "C16",
             level: "exploration",
-            parts: vec![(1, Box::new(hist("C16", None, 150_000, 2666666))), (1, Box::new(crate::twin::FreshEngine { quick_runs: 150_000, thorough_runs: 2_000_000 }))],
+            parts: vec![(1, Box::new(hist("C16", None, 150_000, 2666666))), (1, Box::new(crate::twin::FreshEngine { quick_runs: 150_000, thorough_runs: 2_000_000 })), (1, Box::new(crate::plain::PlainEngine { quick_runs: 150_000, thorough_runs: 2_000_000 }))],
         }),
         "C07" => Box::new(Multi {
             prop: "C07",
